@@ -338,7 +338,7 @@ Section FramesP.
   (* v2: needs the sender-side check on the UNCOMPRESSED size (the receiver enforces the limit
      after decompression) *)
   Theorem frame_v2_roundtrip : forall c m fr,
-    encode_v2 true c m = FOk fr ->
+    encode_v2 true true c m = FOk fr ->
     exists content, split_frame c fr = FOk (content, []) /\ decode_payload_v2 c content = FOk m.
   Proof.
     intros c m fr E. unfold Model.encode_v2 in E. cbn [andb] in E.
@@ -393,7 +393,80 @@ Lemma frame_v2_refuted :
   let compress := fun (d : list N) => [N.of_nat (length d)] in
   let decompress := fun (z : list N) => match z with [n] => Some (repeatN 7 (N.to_nat n)) | _ => None end in
   let c := Codec 3 true 1 true in
-  exists fr content, encode_v2 (list N) ser compress false c [7; 7; 7; 7; 7] = FOk fr /\
+  exists fr content, encode_v2 (list N) ser compress false true c [7; 7; 7; 7; 7] = FOk fr /\
     split_frame c fr = FOk (content, []) /\
     decode_payload_v2 (list N) deser decompress c content = FErr (ETooLarge 5 3).
 Proof. cbv zeta. eexists. eexists. vm_compute. repeat split. Qed.
+
+(* without the check on the frame content the v2 round trip is false as well: a 3-byte message under a
+   3-byte limit is framed as 4 bytes (flags + payload), which the reader's length check rejects *)
+Lemma frame_v2_unframed_refuted :
+  let ser := fun (m : list N) => m in
+  let compress := fun (d : list N) => d in
+  let c := Codec 3 false 0 false in
+  exists fr, encode_v2 (list N) ser compress true false c [7; 7; 7] = FOk fr /\
+    split_frame c fr = FErr (ETooLarge 4 3).
+Proof. cbv zeta. eexists. vm_compute. repeat split. Qed.
+
+(* ================================================================= received sparse vectors *)
+Definition rsv_wf (v : rsv) : Prop :=
+  length (rpos v) = length (rvals v) /\ Forall (fun p => p < rdim v) (rpos v).
+
+Lemma validate_wf : forall max_dim mag_ok v,
+  validate_rsv (VC true true true) max_dim mag_ok v = true -> rsv_wf v /\ strictly_sorted (rpos v) = true.
+Proof.
+  intros max_dim mag_ok v H. unfold validate_rsv in H. cbn [vc_lens vc_bounds_all vc_sorted negb orb] in H.
+  repeat (apply andb_prop in H; destruct H as [H ?]).
+  split; [split|assumption].
+  - apply Nat.eqb_eq. assumption.
+  - apply Forall_forall. intros p Hp.
+    match goal with Hf : forallb _ (rpos v) = true |- _ => rewrite forallb_forall in Hf; specialize (Hf p Hp) end.
+    apply N.ltb_lt. assumption.
+Qed.
+
+Lemma set_nth_opt_some : forall l i x, (i < length l)%nat -> exists l', set_nth_opt l i x = Some l' /\ length l' = length l.
+Proof.
+  induction l as [|h t IH]; intros i x Hi; [cbn in Hi; lia|].
+  destruct i as [|j]; cbn [set_nth_opt].
+  - eexists. split; [reflexivity|reflexivity].
+  - destruct (IH j x) as [l' [E L]]; [cbn in Hi; lia|]. rewrite E. cbn. eexists. split; [reflexivity|cbn; lia].
+Qed.
+
+Lemma to_dense_chk_some : forall pairs acc,
+  Forall (fun px => (N.to_nat (fst px) < length acc)%nat) pairs -> exists d, to_dense_chk pairs acc = Some d.
+Proof.
+  induction pairs as [|[p x] r IH]; intros acc H; cbn [to_dense_chk]; [eauto|].
+  inversion H as [|? ? Hp Hr]; subst. cbn [fst] in Hp.
+  destruct (set_nth_opt_some acc (N.to_nat p) x Hp) as [acc' [E L]]. rewrite E.
+  apply IH. rewrite L. exact Hr.
+Qed.
+
+(* a vector the validator accepts can be densified and read at every index without an out-of-range access *)
+Theorem validated_consumers_safe : forall max_dim mag_ok v,
+  validate_rsv (VC true true true) max_dim mag_ok v = true ->
+  (exists d, rsv_to_dense v = Some d) /\ (forall i, exists x, rsv_get v i = Some x).
+Proof.
+  intros max_dim mag_ok v H. destruct (validate_wf _ _ _ H) as [[HL HB] _]. split.
+  - unfold rsv_to_dense. apply to_dense_chk_some. rewrite repeat_length.
+    apply Forall_forall. intros [p x] Hin. cbn [fst]. apply in_combine_l in Hin.
+    rewrite Forall_forall in HB. specialize (HB p Hin). lia.
+  - intros i. unfold rsv_get.
+    assert (G : forall l k j, find_idx l i k = Some j -> (k <= j < k + length l)%nat).
+    { induction l as [|y r IH]; intros k j E; cbn [find_idx] in E; [discriminate|].
+      destruct (N.eqb y i); [injection E as <-; cbn; lia|]. apply IH in E. cbn. lia. }
+    destruct (find_idx (rpos v) i 0) as [j|] eqn:E; [|eauto].
+    apply G in E. destruct (nth_error (rvals v) j) as [x|] eqn:En; [eauto|].
+    apply nth_error_None in En. lia.
+Qed.
+
+(* without the length check (the code before the repair) the statement is false: three positions, one value *)
+Lemma validated_unequal_lengths_refuted :
+  let v := RSV 4 [0; 1; 2] [1065353216] in
+  validate_rsv (VC false true true) 1024 true v = true /\ rsv_get v 1 = None.
+Proof. vm_compute. split; reflexivity. Qed.
+
+(* checking the bound only from the second position on (a windows(2) loop) is not enough either *)
+Lemma validated_first_position_refuted :
+  let v := RSV 4 [9] [1065353216] in
+  validate_rsv (VC true false true) 1024 true v = true /\ rsv_to_dense v = None.
+Proof. vm_compute. split; reflexivity. Qed.
